@@ -4076,6 +4076,15 @@ class GraphTraversalReachability:
         """
         exclude_set = frozenset(exclude) if exclude else frozenset()
         shallow_set = frozenset(shallow) if shallow else frozenset()
+        if exclude_set:
+            # Everything reachable from the excluded commits is excluded, not
+            # only what lies behind them on the way from heads: an ancestor
+            # of an excluded commit can also be reached around it, through
+            # the other parent of a merge.
+            excluded, _bases = _collect_ancestors(
+                self.store, exclude_set, frozenset(), shallow_set
+            )
+            exclude_set = frozenset(excluded)
         commits, _bases = _collect_ancestors(
             self.store, heads, exclude_set, shallow_set
         )
